@@ -1253,9 +1253,11 @@ static mi_segment_t* mi_segment_reclaim(mi_segment_t* segment, mi_heap_t* heap, 
         target_heap = heap;
         _mi_error_message(EFAULT, "page with tag %u cannot be reclaimed by a heap with the same tag (using heap tag %u instead)\n", page->heap_tag, heap->tag );
       }
-      if (target_heap->no_reclaim) {
-        // a heap that can be destroyed must not adopt blocks of other (terminated) threads as `mi_heap_destroy` would free them
-        target_heap = target_heap->tld->heap_backing;
+      if (target_heap != heap && (target_heap->no_reclaim || !_mi_heap_memid_is_suitable(target_heap, segment->memid))) {
+        // a heap that can be destroyed must not adopt blocks of other (terminated) threads as `mi_heap_destroy` would free them,
+        // and the pages must not move into a heap that is bound to another arena (or not bound to the exclusive arena they are in):
+        // use the reclaiming heap itself which is known to be suitable and allowed to reclaim.
+        target_heap = heap;
       }
       // associate the heap with this page, and allow heap thread delayed free again.
       mi_page_set_heap(page, target_heap);
@@ -1296,6 +1298,7 @@ static mi_segment_t* mi_segment_reclaim(mi_segment_t* segment, mi_heap_t* heap, 
 
 // attempt to reclaim a particular segment (called from multi threaded free `alloc.c:mi_free_block_mt`)
 bool _mi_segment_attempt_reclaim(mi_heap_t* heap, mi_segment_t* segment) {
+  if (heap->no_reclaim) return false;                                  // a heap that can be destroyed does not adopt abandoned pages
   if (mi_atomic_load_relaxed(&segment->thread_id) != 0) return false;  // it is not abandoned
   if (segment->subproc != heap->tld->segments.subproc)  return false;  // only reclaim within the same subprocess
   if (!_mi_heap_memid_is_suitable(heap,segment->memid)) return false;  // don't reclaim between exclusive and non-exclusive arena's
@@ -1353,6 +1356,7 @@ static long mi_segment_get_reclaim_tries(mi_segments_tld_t* tld) {
 static mi_segment_t* mi_segment_try_reclaim(mi_heap_t* heap, size_t needed_slices, size_t block_size, bool* reclaimed, mi_segments_tld_t* tld)
 {
   *reclaimed = false;
+  if (heap->no_reclaim) return NULL;   // a heap that can be destroyed does not adopt abandoned pages
   long max_tries = mi_segment_get_reclaim_tries(tld);
   if (max_tries <= 0) return NULL;
 
